@@ -183,6 +183,10 @@ class Rules(LogicType.Rules):
                 # Substituting a param for itself would be silly.
                 return
             w = node.get('world')
+            # Identity is symmetric. The converse is only needed when it is denied.
+            s_sym = self.predicate((pb, pa))
+            if branch.has(swnode(~s_sym, w)) and not branch.has(swnode(s_sym, w)):
+                yield adds(group(swnode(s_sym, w)), nodes=(node,))
             # Find other nodes with one of the identicals.
             for n in self[PredNodes][branch]:
                 if n is node or n.get('world') != w:
